@@ -270,6 +270,10 @@ func checkC10(c *Ctx) {
 		}
 	}
 
+	// ---- C10-ALIAS: no retained append on a loop-invariant base; one target per converted element
+	c.checkAppendAliasing()
+	c.checkFreshTargets()
+
 	// ---- C10-BAR: converters run behind the barrier
 	br := c.newBR(c.entryRoots(true), c.tableCut("C01-BAR"))
 	for _, name := range []string{"SexpToGoStructs", "ToGoFunction", "CallGoMethodFunction", "fillHashHelper"} {
@@ -442,5 +446,179 @@ func (c *Ctx) checkAgree() {
 		c.check(handled, "C10-AGREE", "fillHashHelper", "Go type "+ts, fd.Pos(),
 			"the Go->record converter has an arm for this field type (e.g. "+leaf[ts]+")",
 			"registered structs have fields of Go type "+ts+" (e.g. "+leaf[ts]+") but the Go->record converter has no arm for it: such a field comes back to the script as nil, silently")
+	}
+}
+
+// loopOf: the blocks that lie on a cycle through b (empty if b is not in a loop).
+func loopOf(b *ssa.BasicBlock) map[*ssa.BasicBlock]bool {
+	fwd := map[*ssa.BasicBlock]bool{}
+	var walk func(x *ssa.BasicBlock)
+	walk = func(x *ssa.BasicBlock) {
+		for _, s := range x.Succs {
+			if !fwd[s] {
+				fwd[s] = true
+				walk(s)
+			}
+		}
+	}
+	walk(b)
+	if !fwd[b] {
+		return nil
+	}
+	out := map[*ssa.BasicBlock]bool{}
+	for x := range fwd {
+		if blockReaches(x, b) {
+			out[x] = true
+		}
+	}
+	out[b] = true
+	return out
+}
+
+func definedOutside(v ssa.Value, loop map[*ssa.BasicBlock]bool) bool {
+	switch x := v.(type) {
+	case *ssa.Parameter, *ssa.FreeVar, *ssa.Global:
+		return true
+	case *ssa.Const:
+		return false // append(nil, ...) allocates
+	case ssa.Instruction:
+		return !loop[x.Block()]
+	}
+	return false
+}
+
+// escapes: the slice value is retained somewhere other than a local that is
+// overwritten by the next iteration: stored into a field, element or global,
+// or handed to a call.
+func escapes(v ssa.Value, depth int) bool {
+	if depth > 4 {
+		return false
+	}
+	refs := v.Referrers()
+	if refs == nil {
+		return false
+	}
+	for _, ref := range *refs {
+		switch x := ref.(type) {
+		case *ssa.Store:
+			if x.Val != v {
+				continue
+			}
+			switch x.Addr.(type) {
+			case *ssa.FieldAddr, *ssa.IndexAddr, *ssa.Global:
+				return true
+			}
+		case *ssa.MapUpdate:
+			if x.Value == v {
+				return true
+			}
+		case ssa.CallInstruction:
+			if _, isBuiltin := x.Common().Value.(*ssa.Builtin); !isBuiltin {
+				return true
+			}
+		case *ssa.MakeInterface:
+			if escapes(x, depth+1) {
+				return true
+			}
+		case *ssa.Phi:
+			if escapes(x, depth+1) {
+				return true
+			}
+		}
+	}
+	return false
+}
+
+// checkAppendAliasing: C10-ALIAS. `r = append(base, x)` inside a loop, with
+// base the same value on every iteration and r retained, makes the retained
+// slices share base's spare capacity: a later iteration overwrites the element
+// an earlier one appended. The same holds across the sibling calls of a
+// recursion that passes r down as the next base.
+func (c *Ctx) checkAppendAliasing() {
+	n := 0
+	for _, f := range c.zygoFuncs() {
+		eachInstr(f, func(b *ssa.BasicBlock, i int, in ssa.Instruction) {
+			call, ok := in.(*ssa.Call)
+			if !ok {
+				return
+			}
+			bi, ok := call.Call.Value.(*ssa.Builtin)
+			if !ok || bi.Name() != "append" || len(call.Call.Args) < 2 {
+				return
+			}
+			loop := loopOf(b)
+			if loop == nil {
+				return
+			}
+			n++
+			base := call.Call.Args[0]
+			if !definedOutside(base, loop) || !escapes(call, 0) {
+				return
+			}
+			// `base = append(base, x)` through a variable spilled to memory shows up as a load inside the loop, not here
+			c.bad("C10-ALIAS", fnName(f), "append on a loop-invariant slice, result retained", call.Pos(),
+				"every iteration appends to the same slice value and keeps the result: as soon as that slice has spare capacity the results share one backing array and the element appended by one iteration is overwritten by the next (field paths / element lists of siblings collapse onto the last one)")
+		})
+	}
+	c.note("appends_in_loops_examined", n)
+	c.check(n >= 20, "C10-ALIAS", "package", "appends inside loops examined", token.NoPos,
+		fmt.Sprintf("%d append calls inside loops examined: none keeps the result of appending to a loop-invariant slice", n),
+		fmt.Sprintf("only %d append calls inside loops found", n))
+}
+
+// checkFreshTargets: C10-ALIAS. The converter caches record -> target in its
+// dedup map and appends *target to slices, so the target handed to a recursive
+// conversion inside a loop must be allocated in that iteration.
+func (c *Ctx) checkFreshTargets() {
+	f := c.mustFn("C10-ALIAS", "SexpToGoStructs")
+	if f == nil {
+		return
+	}
+	n := 0
+	for _, g := range withClosures(f) {
+		eachInstr(g, func(b *ssa.BasicBlock, i int, in ssa.Instruction) {
+			call, ok := in.(*ssa.Call)
+			if !ok || call.Call.StaticCallee() != f || len(call.Call.Args) < 2 {
+				return
+			}
+			loop := loopOf(b)
+			if loop == nil {
+				return
+			}
+			// walk the target argument back to an allocation
+			v := call.Call.Args[1]
+			var alloc *ssa.Call
+			for depth := 0; depth < 8 && v != nil; depth++ {
+				switch x := v.(type) {
+				case *ssa.MakeInterface:
+					v = x.X
+					continue
+				case *ssa.Call:
+					callee := x.Call.StaticCallee()
+					if callee != nil && fnPkgPath(callee) == "reflect" {
+						if callee.Name() == "New" {
+							alloc = x
+							v = nil
+							continue
+						}
+						if len(x.Call.Args) > 0 { // method on a reflect.Value: follow the receiver
+							v = x.Call.Args[0]
+							continue
+						}
+					}
+				}
+				v = nil
+			}
+			if alloc == nil {
+				return // a projection of the parent's target (field, element): distinct per iteration by construction
+			}
+			n++
+			c.check(loop[alloc.Block()], "C10-ALIAS", fnName(g), "one target per converted element", call.Pos(),
+				"the target of the recursive conversion is allocated inside the loop: every element gets its own Go value",
+				"the target handed to the recursive conversion is allocated once, outside the loop: every element is written into the same Go value, and the record->target cache hands that shared value out for repeated records")
+		})
+	}
+	if n == 0 {
+		c.undecided("C10-ALIAS", "SexpToGoStructs", "one target per converted element", f.Pos(), "no recursive conversion of slice elements with an allocated target found")
 	}
 }
